@@ -297,13 +297,13 @@ BT_THOROUGH = [('empty_file', 3), ('fn_1', 3), ('generic_1', 3), ('fn_name_2', 4
 def run_tree_builder(tier, in_unit=False):
     """C01-B / C01-C: bounded Kani checks of the real build_tree (stubbed rowan builder) and of the
     contracts of Parser::nth / Parser::error that the Verus unit assumes."""
-    d = os.path.join(scratch(), 'syntax_kani')
+    d = os.path.join(scratch(), 'syntax_kani_%s' % ('cross' if in_unit else 'full'))
     pairs = BT_QUICK if tier == 'quick' else BT_THOROUGH
     if tier == 'quick' and in_unit:
         # Parser::build_tree is verified by Verus in this run: two shapes stay as a cross-check of the trace specification
         pairs = BT_QUICK_CROSS
     text, names = gen_build_tree.generate(open(os.path.join(VERIF, 'kani/parser/build_tree.rs.in')).read(), pairs)
-    gen = os.path.join(scratch(), 'build_tree_gen.rs')
+    gen = os.path.join(scratch(), 'build_tree_gen_%s.rs' % ('cross' if in_unit else 'full'))
     open(gen, 'w').write(text)
     kani_run.standalone_syntax_crate(REPO, d, [gen, os.path.join(VERIF, 'kani/parser/nth_error.rs'), os.path.join(VERIF, 'kani/parser/lex_string.rs')])
     names += ['parser::verif_kani::nth_contract', 'parser::verif_kani::error_contract', 'parser::verif_kani::lex_string_contract']
@@ -319,7 +319,7 @@ def classified_failures(text, linemap, unit, res):
     if res['failures']:
         try:
             off = os.path.join(os.path.dirname(unit), 'unit_no_c20.rs')
-            t2, n_sub = re.subn(r'spec fn errs_ok\(&self\) -> bool \{.*?\n    \}', 'spec fn errs_ok(&self) -> bool { true }', text, count=1, flags=re.S)
+            t2, n_sub = re.subn(r'spec fn errs_ok\(&self\) -> bool \{[^\n]*\}', 'spec fn errs_ok(&self) -> bool { true }', text, count=1)
             if n_sub == 1:
                 open(off, 'w').write(t2)
                 r2 = verus(off, multiple_errors=30)
@@ -365,12 +365,50 @@ def c20_part(outdir):
             'failed_obligations_other_property': other, 'functions_under_contract': info['contracted']}
 
 
+def native_bounded(prop, tier):
+    """Bounded end-to-end stand-ins on the real crate (native driver): -> (evidence entries, [(obligation, where, witness)]).
+    Independent of the Verus unit, so it runs next to it."""
+    bounded, found = [], []
+    witness.build_driver()
+    if prop == 'C02':
+        w, ran = deep_probe(tier)
+        bounded.append({'what': 'deep-nesting inputs on the real crate in a 2 MiB thread (stack depth and progress-guard fuel are outside the Verus model)',
+                        'bound': 'constructs=%d depths per construct: see tools/prop_parser.py deep_probe (%s tier)' % (len(witness.DEEP), tier),
+                        'inputs_run': ran, 'failed': bool(w)})
+        if w and w['kind'] not in ('panic', 'hang', 'abort'):
+            bounded[-1]['other_property_symptom'] = '%s on %s (belongs to C01 / C20, not reported here)' % (w['kind'], w.get('input_recipe'))
+            w = None
+        if w:
+            found.append(('parser :: bounded-check :: deep nesting :: %s' % w.get('input_recipe'),
+                          'crates/syntax/src/parser.rs (Parser::nth progress guard / recursion depth)', w))
+    if prop == 'C01':
+        w, ran = deep_probe(tier, kinds=('lossy', 'error-range'))
+        bounded.append({'what': 'deep-nesting inputs (unclosed / balanced / mixed / followed by another item) on the real crate: tree text == input',
+                        'bound': 'constructs=%d depths per construct: see tools/prop_parser.py deep_probe (%s tier)' % (len(witness.DEEP), tier),
+                        'inputs_run': ran, 'failed': bool(w)})
+        if w:
+            found.append(('parser :: bounded-check :: lossless :: deep nesting :: %s' % w.get('input_recipe'), 'crates/syntax/src/parser.rs', w))
+        k, budget = (2, 60) if tier == 'quick' else (3, 420)
+        w, n = witness.enumerate_inputs(k, budget, seed())
+        bounded.append({'what': 'end-to-end losslessness of parse_module (lexer + parser + tree builder + rowan) on enumerated token-class sequences in 9 contexts',
+                        'bound': 'all sequences of <= %d tokens over a 52-token alphabet (time budget %ds)' % (k, budget),
+                        'inputs_run': n, 'failed': bool(w)})
+        if w and w['kind'] in ('lossy', 'error-range'):
+            found.append(('parser :: bounded-check :: lossless :: enumerated input', 'crates/syntax/src/parser.rs', w))
+    return bounded, found
+
+
 def main(prop, tier):
     t0 = time.time()
     sd = scratch()
     canaries = json.load(open(os.path.join(VERIF, 'contracts/parser_canaries.json')))
     if tier == 'quick':
         canaries = [c for c in canaries if c['tier'] == 'quick']
+    early = cf.ThreadPoolExecutor(max_workers=2)
+    fut_native = early.submit(native_bounded, prop, tier)
+    # the Kani stage does not depend on the Verus unit either; it starts with the cross-check shapes (quick tier) and is
+    # repeated with the full set only if the tree builder turns out not to be verifiable in the unit
+    fut_bt_early = early.submit(run_tree_builder, tier, True) if prop == 'C01' else None
     try:
         ex, fns, loops, text, linemap, info, unit, res0 = verify_with_inference(REPO, os.path.join(sd, 'unit'))
     except (AnchorLost, weave.SpecError) as e:
@@ -388,7 +426,9 @@ def main(prop, tier):
         fut_reach = pool.submit(run_reach, ex, fns, text, os.path.join(sd, 'reach'))
         fut_can = [pool.submit(run_canary, c, i) for i, c in enumerate(canaries)]
         fut_drv = pool.submit(witness.build_driver) if want_driver else None
-        fut_bt = pool.submit(run_tree_builder, tier, bool(info.get('tree_builder_in_unit'))) if prop == 'C01' else None
+        fut_bt = None
+        if prop == 'C01':
+            fut_bt = fut_bt_early if (info.get('tree_builder_in_unit') or tier != 'quick') else pool.submit(run_tree_builder, tier, False)
         try:
             res = fut_main.result()
             reach = fut_reach.result()
@@ -422,49 +462,20 @@ def main(prop, tier):
     if res['verified'] + res['errors'] == 0:
         guard_problems.append('zero obligations generated')
 
-    # ---- bounded end-to-end stand-ins on the real crate
-    bounded = []
+    # ---- bounded end-to-end stand-ins on the real crate (started before the Verus unit, collected here)
     violations = []
     known_lines = []
     kf = load_known_findings()
     try:
-        if prop == 'C02':
-            w, ran = deep_probe(tier)
-            bounded.append({'what': 'deep-nesting inputs on the real crate in a 2 MiB thread (stack depth and progress-guard fuel are outside the Verus model)',
-                            'bound': 'constructs=%d depths per construct: see tools/prop_parser.py deep_probe (%s tier)' % (len(witness.DEEP), tier),
-                            'inputs_run': ran, 'failed': bool(w)})
-            if w and w['kind'] not in ('panic', 'hang', 'abort'):
-                bounded[-1]['other_property_symptom'] = '%s on %s (belongs to C01 / C20, not reported here)' % (w['kind'], w.get('input_recipe'))
-                w = None
-            if w:
-                oblig = 'parser :: bounded-check :: deep nesting :: %s' % w.get('input_recipe')
-                if not matches_known(kf, prop, oblig, w, known_lines):
-                    path = write_replay(prop, oblig, 'crates/syntax/src/parser.rs (Parser::nth progress guard / recursion depth)',
-                                        'native driver (bounded stand-in, real crate)', w['observed'], w,
-                                        './check %s --replay <this file>' % prop)
-                    violations.append((path, True))
-        if prop == 'C01':
-            w, ran = deep_probe(tier, kinds=('lossy', 'error-range'))
-            bounded.append({'what': 'deep-nesting inputs (unclosed / balanced / mixed / followed by another item) on the real crate: tree text == input',
-                            'bound': 'constructs=%d depths per construct: see tools/prop_parser.py deep_probe (%s tier)' % (len(witness.DEEP), tier),
-                            'inputs_run': ran, 'failed': bool(w)})
-            if w:
-                oblig = 'parser :: bounded-check :: lossless :: deep nesting :: %s' % w.get('input_recipe')
-                path = write_replay(prop, oblig, 'crates/syntax/src/parser.rs', 'native driver (bounded stand-in, real crate)',
-                                    w['observed'], w, './check %s --replay <this file>' % prop)
-                violations.append((path, True))
-            k, budget = (2, 60) if tier == 'quick' else (3, 420)
-            w, n = witness.enumerate_inputs(k, budget, seed())
-            bounded.append({'what': 'end-to-end losslessness of parse_module (lexer + parser + tree builder + rowan) on enumerated token-class sequences in 9 contexts',
-                            'bound': 'all sequences of <= %d tokens over a 52-token alphabet (time budget %ds)' % (k, budget),
-                            'inputs_run': n, 'failed': bool(w)})
-            if w and w['kind'] in ('lossy', 'error-range'):
-                oblig = 'parser :: bounded-check :: lossless :: enumerated input'
-                path = write_replay(prop, oblig, 'crates/syntax/src/parser.rs', 'native driver (bounded stand-in, real crate)',
-                                    w['observed'], w, './check %s --replay <this file>' % prop)
-                violations.append((path, True))
+        bounded, native_w = fut_native.result()
     except Undecided as e:
         return undecided(prop, tier, t0, str(e))
+    for oblig, where, w in native_w:
+        if prop == 'C02' and matches_known(kf, prop, oblig, w, known_lines):
+            continue
+        path = write_replay(prop, oblig, where, 'native driver (bounded stand-in, real crate)', w['observed'], w,
+                            './check %s --replay <this file>' % prop)
+        violations.append((path, True))
 
     # ---- tree builder (Kani, bounded)
     bt_undecided = []
